@@ -355,6 +355,17 @@ func genZkLoop(g *gen) {
 			g.emit("Z run fails=0 wait=%d down=%d early=0 groups=%d mi=1 tail=450 stall=%d", int(g.pick(600, 1250)), int(g.pick(30, 150)), 1+g.intn(3), int(g.pick(120, 250)))
 			continue
 		}
+		if i%7 == 1 {
+			// the lock is refused several times in a row before it is won: nothing may be evaluated meanwhile
+			g.emit("Z run fails=%d wait=%d down=%d early=0 groups=%d mi=1 tail=450", int(g.pick(3, 4, 5)), int(g.pick(350, 600)), int(g.pick(30, 150)), 1+g.intn(3))
+			continue
+		}
+		if i%7 == 6 {
+			// a long time without the lock (several intervals) between two owned windows: on re-acquisition every group is
+			// requested once, not once per missed interval
+			g.emit("Z run fails=0,%d wait=%d,%d down=%d,%d early=0 groups=%d mi=1 tail=450", g.intn(2), int(g.pick(350, 600)), int(g.pick(600, 800)), int(g.pick(2300, 3400)), int(g.pick(30, 150)), 1+g.intn(2))
+			continue
+		}
 		cycles := 1 + g.intn(3)
 		var fails, wait, down []string
 		for c := 0; c < cycles; c++ {
